@@ -39,6 +39,9 @@ var classNodeQueue []core_domain.CodeDataStruct
 var currentNode *core_domain.CodeDataStruct
 var classNodes []core_domain.CodeDataStruct
 var currentCreatorNode core_domain.CodeDataStruct
+
+// one entry per creator being walked: whether it opened an anonymous class ("new T(..) { .. }" inside a method)
+var creatorOpenedClass []bool
 var fileName = ""
 var hasEnterClass = false
 
@@ -50,6 +53,7 @@ func NewJavaFullListener(nodes map[string]core_domain.CodeDataStruct, file strin
 	formalParameters = make(map[string]string)
 	creatorMethodMap = make(map[string]core_domain.CodeFunction)
 	currentType = ""
+	creatorOpenedClass = nil
 	hasEnterClass = false
 	fileName = file
 	currentPkg = ""
@@ -445,6 +449,9 @@ func getMethodMapName(method core_domain.CodeFunction) string {
 }
 
 func (s *JavaFullListener) EnterCreator(ctx *parser.CreatorContext) {
+	opened := false
+	defer func() { creatorOpenedClass = append(creatorOpenedClass, opened) }()
+
 	variableName := ctx.GetParent().GetParent().GetChild(0).(antlr.ParseTree).GetText()
 	allIdentifiers := ctx.CreatedName().(*parser.CreatedNameContext).AllIdentifier()
 
@@ -472,6 +479,7 @@ func (s *JavaFullListener) EnterCreator(ctx *parser.CreatorContext) {
 		}
 
 		currentType = "CreatorClass"
+		opened = true
 		text := ctx.CreatedName().GetText()
 		creatorNode := &core_domain.CodeDataStruct{
 			Package:       currentPkg,
@@ -508,6 +516,23 @@ func isDeclaredVariable(name string) bool {
 }
 
 func (s *JavaFullListener) ExitCreator(ctx *parser.CreatorContext) {
+	// a creator without a class body ("new B()" among the arguments or inside the body of an anonymous class)
+	// opened nothing: the anonymous class around it is still being walked
+	opened := false
+	if n := len(creatorOpenedClass); n > 0 {
+		opened = creatorOpenedClass[n-1]
+		creatorOpenedClass = creatorOpenedClass[:n-1]
+	}
+	if !opened {
+		return
+	}
+	for _, outer := range creatorOpenedClass {
+		if outer {
+			// an anonymous class inside an anonymous class: the outer one goes on
+			return
+		}
+	}
+
 	if currentCreatorNode.NodeName != "" {
 		method := methodMap[getMethodMapName(currentMethod)]
 		method.InnerStructures = append(method.InnerStructures, currentCreatorNode)
